@@ -16,3 +16,12 @@ for h, name in NAMES.items():
 job('qsbr.state.fetch_dec', ['C16'], 'repo:qsbr.cpp', 'proofs/qsbr/state.c', defines=['H_FETCH_DEC'], roots={'ST_FETCH_DEC': S + r'atomic_fetch_dec_threads_in_previous_epoch\('},
     cfgs=(BASE, DEBUG), under_contract=['qsbr_state::atomic_fetch_dec_threads_in_previous_epoch'], floor=3, timeout=300, replay='replay/qsbrstate.cpp',
     trusted=['atomic fetch_sub executed sequentially (SC, no interference): the concurrent meaning is outside function contracts'])
+# C08 (QSBR clauses: thread start, resume, deferred-deallocation request): the per-thread functions with an allocator that fails at every allocation
+PT = r'^unodb::qsbr_per_thread::'
+PTSTUBS = {'QSBR_INSTANCE': r'^unodb::qsbr::instance\(\)'}
+job('qsbr.c08.ctor', ['C08'], 'u_qsbr_api', 'proofs/qsbr/perthread.c', defines=['H_CTOR'], roots={'PT_CTOR': PT + r'qsbr_per_thread\(\)'}, stubs=PTSTUBS, cfgs=(BASE, DEBUG),
+    unwind=10, floor=5, timeout=300, under_contract=['qsbr_per_thread::qsbr_per_thread() (thread start: member initialisers + register_thread)'],
+    trusted=['qsbr::register_thread replaced by a recording contract (does not throw)', 'operator new / delete model (fresh object or bad_alloc)'])
+job('qsbr.c08.resume', ['C08'], 'u_qsbr_api', 'proofs/qsbr/perthread.c', defines=['H_RESUME'], roots={'PT_RESUME': PT + r'qsbr_resume\(\)'}, stubs=PTSTUBS, cfgs=(BASE, DEBUG),
+    unwind=10, floor=5, timeout=300, under_contract=['qsbr_per_thread::qsbr_resume'],
+    trusted=['qsbr::register_thread replaced by a recording contract (does not throw)', 'operator new / delete model (fresh object or bad_alloc)'])
